@@ -670,6 +670,16 @@ def eat_drains_queue(ctx, rule, which):
     drained = bool(need) and all(any(g.startswith("input.next() matches Some") and v is False for g, v in pc["guards"].items()) for pc in need)
     moving = [pc for pc in eat if any(g.startswith("input.next() matches Some") and v is True for g, v in pc["guards"].items())]
     ok = drained and bool(moving) and all(any(a == "self.temp_buf.push_char" for a, _ in pc["actions"]) and pc["ret"] not in ("None",) for pc in moving)
+    # ... and the stash is joined back in front of the input before anything is decided: every path of eat() pushes temp_buf back
+    # before it compares (or answers)
+    late = None
+    for pc in eat:
+        names = [a for a, _ in pc["actions"]]
+        if "panic!" in names:
+            continue
+        if "input.push_front" not in names or ("input.eat" in names and names.index("input.push_front") > names.index("input.eat")):
+            late = "eat() answers %s on a path that has not first pushed the stashed prefix back to the front of the input (%s): a keyword split across chunks is compared without its first part" % (pc["ret"], [g[:40] for g, v in pc["guards"].items() if v][:2])
+    ctx.ob(rule, "eat-rejoins-the-stash-first/%s" % which, late is None, late or "every path pushes temp_buf back before comparing", "%s tokenizer eat" % which)
     ctx.ob(rule, "eat-drains-the-queue-when-it-needs-more/%s" % which, ok,
            "when eat() answers 'need more input' it has moved the *whole* queue into temp_buf (a loop over input.next())" if ok else
            "eat() can answer 'need more input' leaving characters in the caller's queue (or moving only part of them): the stashed text and the rest of the input are re-joined in the wrong order or not at all", "%s tokenizer eat" % which)
